@@ -74,6 +74,8 @@ structure St where
   mainDraws : Nat                      -- draws consumed from the scheduler stream since its (re)seed
   restarted : Bool                     -- 'restarted_from' in config['current']
   rgenRestored : Bool := false         -- `_rgen_restored`: scheduler stream state restored after the restart
+  lockedOrd : List Nat := []           -- third component of the `locked` entries: ordinal of the job's stream
+  locked0Ord : List (Option Nat) := []  -- the same for `locked0` (`none`: restart file without ordinals)
 deriving Repr, DecidableEq
 
 def off : Nat := 1
@@ -178,6 +180,11 @@ def mkPicked (s : St) (pairs : List (Int × Option Nat)) : Except Err (List Pick
     | _, (_, none) :: _ => .error .key     -- `"".path_number`
   go 0 pairs
 
+/-- streams of a job whose child stream has the given ordinal (a re-issued job keeps the ordinal on
+    record): `SeedSequence(entropy, spawn_key = (ordinal,))` and its grandchildren -/
+def mkPickedAt (s : St) (ordinal : Nat) (pairs : List (Int × Option Nat)) : Except Err (List Picked) :=
+  mkPicked { s with spawned := ordinal } pairs
+
 def pick (s : St) (o : PickOutcome) : Except Err (St × List Picked × List Draw) :=
   match pickCore s o with
   | .error er => .error er
@@ -186,7 +193,8 @@ def pick (s : St) (o : PickOutcome) : Except Err (St × List Picked × List Draw
     | .error er => .error er
     | .ok ps =>
       let entry : List Int × List Nat := (pairs.map (·.1), ps.map (·.pn))
-      .ok ({ s1 with locked := s1.locked ++ [entry], spawned := s1.spawned + 1,
+      .ok ({ s1 with locked := s1.locked ++ [entry], lockedOrd := s1.lockedOrd ++ [s1.spawned],
+                     spawned := s1.spawned + 1,
                      mainDraws := s1.mainDraws + drawCount ds }, ps, ds)
 
 /-- `set_rgen()` (called by `__init__` on a restart): SeedSequence(entropy = configured seed,
@@ -220,20 +228,30 @@ def reissue (s : St) (enss0 trajs0 : List Nat) : Except Err (St × List (Int × 
           | .ok (s3, ps) => .ok (s3, (((e : Int) - (off : Int)), s2.trajs.getD e none) :: ps)
   go s (enss0.zip trajs0)
 
-/-- `pick_lock()`; `savedDraws` = the main-stream position stored in the restart file -/
+/-- ordinal of the stream a re-issued job gets: the one on record, or (restart file without
+    ordinals) the next fresh one -/
+def reissueOrd (s s1 : St) : Nat := ((s.locked0Ord.head?).join).getD s1.spawned
+
+/-- the state after re-issuing the recorded job `(enss0, trajs0)`: it stays on record with its
+    ordinal; the spawn counter only advances when the record had no ordinal -/
+def reissued (s s1 : St) (enss0 trajs0 : List Nat) : St :=
+  { s1 with spawned := if ((s.locked0Ord.head?).join).isSome then s1.spawned else s1.spawned + 1,
+            locked := s1.locked ++ [(enss0.map (fun (e : Nat) => ((e : Int) - (off : Int))), trajs0)],
+            lockedOrd := s1.lockedOrd ++ [reissueOrd s s1] }
+
+/-- `pick_lock()`; `savedDraws` = the main-stream position stored in the restart file.
+    A recorded job is re-issued with the ordinal on record (the very stream it had before the stop,
+    spawn counter untouched); a record without ordinal (old restart file) gets a fresh child. -/
 def pickLock (s : St) (o : PickOutcome) (savedDraws : Nat) : Except Err (St × List Picked × List Draw) :=
   match s.locked0 with
   | [] => pick (restoreStreamOnce s savedDraws) o
   | (enss0, trajs0) :: rest =>
-    match reissue { s with locked0 := rest } enss0 trajs0 with
+    match reissue { s with locked0 := rest, locked0Ord := s.locked0Ord.tail } enss0 trajs0 with
     | .error er => .error er
     | .ok (s1, pairs) =>
-      match mkPicked s1 pairs with
+      match mkPickedAt s1 (reissueOrd s s1) pairs with
       | .error er => .error er
-      | .ok ps =>
-        -- `self.locked.append((enss, trajs0))`: the re-issued job stays on record
-        let entry : List Int × List Nat := (enss0.map (fun (e : Nat) => ((e : Int) - (off : Int))), trajs0)
-        .ok ({ s1 with spawned := s1.spawned + 1, locked := s1.locked ++ [entry] }, ps, [])
+      | .ok ps => .ok (reissued s s1 enss0 trajs0, ps, [])
 
 /-! ### engines -/
 
@@ -379,6 +397,16 @@ def popLocked (pn : Nat) : Nat → Nat → List (List Int × List Nat) → List 
       if entry.2.contains pn then popLocked pn fuel (idx + 1) (l.eraseIdx idx)
       else popLocked pn fuel (idx + 1) l
 
+/-- the same loop seen on the ordinals riding along with the `locked` entries -/
+def popLockedOrd (pn : Nat) : Nat → Nat → List (List Int × List Nat) → List Nat → List Nat
+  | 0, _, _, o => o
+  | fuel + 1, idx, l, o =>
+    match l[idx]? with
+    | none => o
+    | some entry =>
+      if entry.2.contains pn then popLockedOrd pn fuel (idx + 1) (l.eraseIdx idx) (o.eraseIdx idx)
+      else popLockedOrd pn fuel (idx + 1) l o
+
 /-- `write_to_pathens(state, pnum_old)`: append rows, pop traj_data -/
 def writeRows (s : St) : List Nat → Except Err St
   | [] => .ok s
@@ -399,7 +427,8 @@ def treatOutput (s : St) (job : Job) (status : Status) (newW : List (List Rat)) 
   let rec perEns (s : St) (tn : Nat) : List (Picked × List Rat) → Except Err (St × Nat × List Nat)
     | [] => .ok (s, tn, [])
     | (p, w) :: rest =>
-      let s1 := { s with locked := popLocked p.pn s.locked.length 0 s.locked }
+      let s1 := { s with locked := popLocked p.pn s.locked.length 0 s.locked,
+                         lockedOrd := popLockedOrd p.pn s.locked.length 0 s.locked s.lockedOrd }
       if status = .acc then
         let s2 := { s1 with frac := s1.frac ++ [(tn, List.replicate s1.n 0)], wts := s1.wts ++ [(tn, w)] }
         match addTraj s2 p.ens tn w with
@@ -463,12 +492,14 @@ structure Image where
   frac : List (Nat × List Rat)
   rngDraws : Nat          -- stands for `rng_state` of the scheduler stream
   seed : Nat
+  lockedOrd : List Nat := []   -- third component of the `locked` entries
 deriving Repr, DecidableEq
 
 def persist (s : St) : Image :=
   { active := livePaths s,
     locked := s.locked.map (fun (es, ps) => (es.map (fun e => (e + (off : Int)).toNat), ps)),
-    cstep := s.cstep, trajNum := s.trajNum, frac := s.frac, rngDraws := s.mainDraws, seed := s.seed }
+    cstep := s.cstep, trajNum := s.trajNum, frac := s.frac, rngDraws := s.mainDraws, seed := s.seed,
+    lockedOrd := s.lockedOrd }
 
 /-! ### the scheduler loop (scheduler.py) over explicit outcomes -/
 
@@ -565,7 +596,8 @@ def loadPaths (s : St) (paths : List (Nat × List Rat × List Rat)) : Except Err
     from an image; `weightOf pn` = the weight vector recomputed from the stored path `pn`. -/
 def restore (im : Image) (n workers tsteps : Nat) (occ : List (List Int)) (ensEng : List (List Nat))
     (weightOf : Nat → List Rat) : Except Err St :=
-  let s0 := blank n workers tsteps im.cstep im.trajNum im.seed occ ensEng true im.locked
+  let s0 := { blank n workers tsteps im.cstep im.trajNum im.seed occ ensEng true im.locked with
+              locked0Ord := im.lockedOrd.map some }
   let paths := im.active.filterMap (fun o => o.map (fun pn =>
     (pn, weightOf pn, (im.frac.lookup pn).getD (List.replicate n 0))))
   loadPaths s0 paths
